@@ -28,11 +28,15 @@
 //!   short fmt ending seed pattern      short-write / Interrupted patterns
 //!   mix   fmt ending seed pseed        short writes + one failure
 //!   drop  seed pattern                 bgzf::io::Writer dropped without finish
+//!   fsfull fmt seed                    <index>::fs::write("/dev/full", &index) must return Err
 //!
 //! endings: X = consuming finish (`finish(self)` / `into_inner().finish()`), T = `try_finish()`
 //! then drop, D = drop only, R = `alignment::io::Write::finish` then drop, M = MT `finish()`,
 //! C = `cram try_finish(&header)`, U = `noodles_util::alignment::io::Writer::finish`,
-//! - = nothing (unbuffered writers).
+//! V = `noodles_util::variant::io::Writer::finish` (uvbcf/uvbcfraw/uvvcf/uvvcfgz), B = the writers
+//! made by sam / vcf `io::writer::Builder::build_from_writer` (Writer<Box<dyn Write>>; bsam, bsamgz,
+//! bvcf, bvcfgz) ended with the only call they offer (alignment trait finish, resp.
+//! get_mut().flush()), - = nothing (unbuffered writers).
 //! ubam/ubamraw/usam/usamgz = the noodles-util alignment writer (BGZF BAM, BufWriter BAM,
 //! BufWriter SAM, BGZF SAM).
 
@@ -440,7 +444,7 @@ fn fixture(fmt: &str, seed: u64) -> Fx {
             }
             Fx::Chunks(v)
         }
-        "sam" | "samgz" | "bam" | "bamraw" | "cram" | "ubam" | "ubamraw" | "usam" | "usamgz" => {
+        "sam" | "samgz" | "bam" | "bamraw" | "cram" | "ubam" | "ubamraw" | "usam" | "usamgz" | "bsam" | "bsamgz" => {
             let big = seed % 7 == 0 && fmt != "cram";
             let nrec = rng.range(if big { 1 } else { 0 }, 5);
             let text = sam_text(rng, fmt == "cram", nrec, big);
@@ -449,7 +453,7 @@ fn fixture(fmt: &str, seed: u64) -> Fx {
             let recs = r.record_bufs(&h).collect::<Result<Vec<_>, _>>().expect("generated SAM records");
             Fx::Sam(h, recs)
         }
-        "vcf" | "vcfgz" | "bcf" | "bcfraw" => {
+        "vcf" | "vcfgz" | "bcf" | "bcfraw" | "uvbcf" | "uvbcfraw" | "uvvcf" | "uvvcfgz" | "bvcf" | "bvcfgz" => {
             let big = seed % 7 == 0;
             let nrec = rng.range(if big { 1 } else { 0 }, 5);
             let text = vcf_text(rng, nrec, big);
@@ -698,6 +702,46 @@ fn drive(fmt: &str, ending: &str, fx: &Fx, sink: TSink, tr: &mut Tr) {
             }
             op!(tr, w.finish(h));
         }
+        ("uvbcf" | "uvbcfraw" | "uvvcf" | "uvvcfgz", Fx::Vcf(h, recs)) => {
+            // noodles_util::variant::io::Writer, finished with its finish() (added by bc303e1; before
+            // it the life could only end with Drop: util-variant-writer-cannot-finish)
+            use noodles_util::variant::io::{CompressionMethod, Format};
+            let b = noodles_util::variant::io::writer::Builder::default();
+            let b = match fmt {
+                "uvbcf" => b.set_format(Format::Bcf).set_compression_method(Some(CompressionMethod::Bgzf)),
+                "uvbcfraw" => b.set_format(Format::Bcf).set_compression_method(None),
+                "uvvcf" => b.set_format(Format::Vcf).set_compression_method(None),
+                _ => b.set_format(Format::Vcf).set_compression_method(Some(CompressionMethod::Bgzf)),
+            };
+            let mut w = b.build_from_writer(sink);
+            op!(tr, w.write_header(h));
+            for r in recs {
+                op!(tr, w.write_record(h, r));
+            }
+            op!(tr, w.finish());
+        }
+        ("bsam" | "bsamgz", Fx::Sam(h, recs)) => {
+            // sam::io::writer::Builder: Writer<Box<dyn Write>>; the only finishing call a caller
+            // has is the alignment trait's finish (= flush of the boxed writer)
+            let cm = if fmt == "bsamgz" { sam::io::CompressionMethod::Bgzf } else { sam::io::CompressionMethod::None };
+            let mut w = sam::io::writer::Builder::default().set_compression_method(cm).build_from_writer(sink);
+            op!(tr, w.write_header(h));
+            for r in recs {
+                op!(tr, w.write_alignment_record(h, r));
+            }
+            op!(tr, sam::alignment::io::Write::finish(&mut w, h));
+        }
+        ("bvcf" | "bvcfgz", Fx::Vcf(h, recs)) => {
+            // vcf::io::writer::Builder: Writer<Box<dyn Write>>; there is no finish at all, the
+            // most a caller can do is get_mut().flush()
+            let cm = if fmt == "bvcfgz" { vcf::io::CompressionMethod::Bgzf } else { vcf::io::CompressionMethod::None };
+            let mut w = vcf::io::writer::Builder::default().set_compression_method(cm).build_from_writer(sink);
+            op!(tr, w.write_header(h));
+            for r in recs {
+                op!(tr, w.write_variant_record(h, r));
+            }
+            op!(tr, w.get_mut().flush());
+        }
         ("cram", Fx::Sam(h, recs)) => {
             let mut w = cram::io::writer::Builder::default().verif_set_records_per_slice(2).build_from_writer(sink);
             op!(tr, w.write_header(h));
@@ -840,6 +884,14 @@ const FORMATS: &[(&str, &[&str])] = &[
     ("ubamraw", &["U"]),
     ("usam", &["U"]),
     ("usamgz", &["U"]),
+    ("uvbcf", &["V"]),
+    ("uvbcfraw", &["V"]),
+    ("uvvcf", &["V"]),
+    ("uvvcfgz", &["V"]),
+    ("bsam", &["B"]),
+    ("bsamgz", &["B"]),
+    ("bvcf", &["B"]),
+    ("bvcfgz", &["B"]),
     ("sam", &["-"]),
     ("samgz", &["T", "X"]),
     ("vcf", &["-"]),
@@ -862,6 +914,7 @@ const UNBUFFERED: &[&str] = &["sam", "vcf", "bamraw", "bcfraw", "fasta", "fastq"
 /// the block flush inside write()/write_record is reached and can fail there
 const HAS_BIG: &[&str] = &[
     "bgzf", "mt", "bam", "bamraw", "bcf", "bcfraw", "sam", "samgz", "vcf", "vcfgz", "ubam", "ubamraw", "usam", "usamgz",
+    "uvbcf", "uvbcfraw", "uvvcf", "uvvcfgz", "bsam", "bsamgz", "bvcf", "bvcfgz",
 ];
 
 /// the file format a writer produces (selects the decoder)
@@ -871,6 +924,14 @@ fn file_format(fmt: &str) -> &str {
         "ubamraw" => "bamraw",
         "usam" => "sam",
         "usamgz" => "samgz",
+        "uvbcf" => "bcf",
+        "uvbcfraw" => "bcfraw",
+        "uvvcf" => "vcf",
+        "uvvcfgz" => "vcfgz",
+        "bsam" => "sam",
+        "bsamgz" => "samgz",
+        "bvcf" => "vcf",
+        "bvcfgz" => "vcfgz",
         f => f,
     }
 }
@@ -1282,6 +1343,19 @@ fn check_failure(
                         // everything but the EOF marker is there: the generic trait impl flushed
                         // the data, the marker itself is still written by Drop
                         "bam-trait-finish-eof-in-drop".to_string()
+                    } else if ending == "V" && in_drop {
+                        // the generic variant writer's finish() did not finish the stream
+                        "util-variant-writer-cannot-finish".to_string()
+                    } else if ending == "B"
+                        && in_drop
+                        && ends_with_eof(&rf.bytes)
+                        && out.bytes.len() < rf.bytes.len()
+                        && out.bytes.starts_with(&rf.bytes[..rf.bytes.len() - 28])
+                        && BGZF_EOF.starts_with(&out.bytes[rf.bytes.len() - 28..])
+                    {
+                        // Writer<Box<dyn Write>>: flush wrote the data blocks, the EOF marker is
+                        // left to Drop
+                        "builder-bgzf-eof-in-drop".to_string()
                     } else if (fmt == "bam" && ending == "R" || ending == "U") && in_drop {
                         // the alignment writers' finish does not finish (or flush) the stream
                         "bam-trait-finish-noop".to_string()
@@ -1898,6 +1972,12 @@ fn gen_deepen(rng: &mut Rng, thorough: bool, w: &mut CaseWriter) {
             }
         }
     }
+    // --- L3: the fs::write convenience functions of the index writers on a full device
+    for fmt in ["csi", "tbi", "bai", "gzi", "fai", "crai", "crai0"] {
+        for _ in 0..(if thorough { 5 } else { 1 }) {
+            w.push("fsfull", vec![fmt.to_string(), (rng.next() >> 8).to_string()]);
+        }
+    }
     // --- L2: the CRAM writer's use of its sink
     for _ in 0..(4 * scale) {
         let seed = (rng.next() >> 8) | 1;
@@ -1933,6 +2013,43 @@ fn gen_deepen(rng: &mut Rng, thorough: bool, w: &mut CaseWriter) {
             };
             w.push("cram", vec![seed.to_string(), fmt_script(&sc), ops.clone()]);
         }
+    }
+}
+
+/// `<index>::fs::write(path, &index)` on a destination that is full (/dev/full: every write fails
+/// with ENOSPC): the one call there is must return the error
+fn run_fsfull(c: &Case) -> Obs {
+    let (fmt, seed) = (c.args[0].as_str(), c.u(1));
+    let dst = "/dev/full";
+    if std::fs::OpenOptions::new().write(true).open(dst).and_then(|mut f| f.write_all(b"x")).is_ok() {
+        // no /dev/full on this system
+        return Obs {
+            obs: "-".into(),
+            verdict: "skip".into(),
+            nontrivial: false,
+        };
+    }
+    // crai0 = an index without records: the gzip encoder makes no write at all before Drop (with
+    // records its first write emits the gzip header, which fails at once on a full device)
+    let fx = if fmt == "crai0" { Fx::Crai(vec![]) } else { fixture(fmt, seed) };
+    let r = guarded(AssertUnwindSafe(|| match (fmt, &fx) {
+        ("csi", Fx::Csi(ix)) => csi::fs::write(dst, ix),
+        ("tbi", Fx::Tbi(ix)) => tabix::fs::write(dst, ix),
+        ("bai", Fx::Bai(ix)) => bam::bai::fs::write(dst, ix),
+        ("gzi", Fx::Gzi(ix)) => bgzf::gzi::fs::write(dst, ix),
+        ("fai", Fx::Fai(ix)) => fasta::fai::fs::write(dst, ix),
+        ("crai" | "crai0", Fx::Crai(recs)) => cram::crai::fs::write(dst, recs),
+        _ => panic!("fsfull {fmt}"),
+    }));
+    match r {
+        Outcome::Panicked(p) => Obs::fail("-", &format!("{fmt}-panic-on-sink-error"), p),
+        Outcome::Done(Err(_)) => Obs::ok("-", true),
+        Outcome::Done(Ok(())) => Obs::fail(
+            "-",
+            // (crai::fs::write was not part of the repair 932fe81 of the other five)
+            if fmt.starts_with("crai") { "crai-fs-write-error-lost-in-drop" } else { "fs-write-error-lost-in-drop" },
+            format!("fmt={fmt} seed={seed} {fmt}::fs::write(\"/dev/full\", ..) returned Ok(()) although no byte could be written"),
+        ),
     }
 }
 
@@ -2411,6 +2528,7 @@ fn run(c: &Case) -> Obs {
         "mt" => run_mtl(c),
         "fob" => run_fob(c),
         "cram" => run_cram(c),
+        "fsfull" => run_fsfull(c),
         "sweep" => run_sweep(c),
         "short" => run_short(c),
         "mix" => run_mix(c),
